@@ -526,7 +526,7 @@ def run(ctx):
             # a completed two-sided search ends with D <= 50 per side, i.e. at most ~100 unmatched elements in total;
             # more unmatched elements than that means the depth limit was reached and the partial-lcs repair (fix()) ran
             matched = 0 if f["G"] == "-" else sum(int(x.split(":")[2]) for x in f["G"].split(","))
-            if len(a.decode("utf-8")) + len(b.decode("utf-8")) - 2 * matched > 102:
+            if a != b and len(a.decode("utf-8")) + len(b.decode("utf-8")) - 2 * matched > 102:
                 dist["over_100_unmatched_pairs"] += 1
                 if f["H"] == "0":
                     ctx.notes.append("instrumentation says the depth limit was not reached for a pair with > 102 unmatched elements: %r / %r" % (a[:40], b[:40]))
